@@ -382,6 +382,6 @@ NOT_APPLICABLE = {
     "C19": "loss / double hand-over arise only between the requester task and per-peer worker tasks (watch map + oneshot drops); the sequential fragments are three-line map updates whose contracts decide neither clause",
 }
 
-NOTES = "see DESIGN.md; properties not yet listed under checks or not_applicable are being built"
+NOTES = "see DESIGN.md (status table in section 0). All 19 properties are either claimed (16) or listed as not applicable with the reason (C06, C17, C19). Exit codes of every check: 0 held, 1 violation (VIOLATION line), 2 undecided / tool limit (never an alarm)."
 HOOK_COMMITS = []
 
